@@ -60,7 +60,27 @@ def rule_text(r: dict) -> str:
 
 def build(recipe: dict, flags_by_assignment: bool = False):
     """Construct the real engine through the public constructors. With flags_by_assignment the enabled / lock flags
-    and the default value are set on the finished objects instead (what FllImporter and interactive use do)."""
+    and the default value are set on the finished objects instead (what FllImporter and interactive use do).
+    A recipe with "shared_objects": True gets ONE operator / defuzzifier instance per distinct description, shared by
+    all variables and rule blocks (what Engine.configure-style set-up code and hand-written scripts do)."""
+    if recipe.get("shared_objects"):
+        cache: dict = {}
+
+        def shared(maker):
+            def make(desc):
+                key = (maker.__name__, repr(desc))
+                if key not in cache:
+                    cache[key] = maker(desc)
+                return cache[key]
+            return make
+
+        global make_norm, make_defuzzifier
+        saved = make_norm, make_defuzzifier
+        make_norm, make_defuzzifier = shared(saved[0]), shared(saved[1])
+        try:
+            return build({k: v for k, v in recipe.items() if k != "shared_objects"}, flags_by_assignment)
+        finally:
+            make_norm, make_defuzzifier = saved
     inputs = [
         fl.InputVariable(
             name=v["name"], description=v.get("description", ""), enabled=v.get("enabled", True), minimum=v["min"],
